@@ -23,7 +23,7 @@ MANIFEST = dict(
     technique='TLA+ I-spec Neigh (link address cache ring + resolution goroutines; TLC exhaustive, all races of lookup / add / timeout / expiry / eviction) + P-spec TraceNeigh validating link-tap and sockets-API observations of the real stack (own decoder; time used only as lower bound); scenario orders partly derived from TLC simulation of the I-spec',
     text='TLC explores every interleaving of two concurrent lookups, replies, overwrites, retry timeouts, expiry and ring eviction on a 2..3-entry ring with 3 addresses: a hit returns the link address most recently added for exactly that key and never an expired one, waiters are always notified when their entry leaves incomplete or is evicted, changeState never takes a transition on which the Go code panics, a resolution sends at most 3 requests. On the real stack TLC decides for every trace: an injected ARP request / neighbour solicitation is answered exactly once iff the target is an own address (sender fields = own MAC + target, target fields and link destination = requester), malformed ones never; a neighbour advertisement is a reply for its TARGET field whatever its IPv6 source is (link-local source answering for a global target and the reverse, foreign source, solicited and unsolicited; messages without the link-layer address option may but need not be learned from); after a reply or a request addressed to the stack traffic for that neighbour goes to the learned MAC without a new request; no packet for an unresolved next hop (also via a gateway) is emitted; requests are broadcast, at least 0.9 s apart, at most 3 per resolution; the waiting Write / Connect / GetLinkAddress proceeds with the learned MAC or fails with the no-link-address error only after the third request plus one more timeout; mappings (also ones that overwrote an older mapping or a failed resolution of the same address, whose stale ring slot is recycled earlier) survive exactly until 512 newer entries exist and are never used for another key after ring wrap, nor once their 60 s life time is over: real-time scenarios (one in the quick tier, 13 in the thorough tier, run beside everything else) learn a mapping, check that it is still used without a request after 43-49 s, idle to 65+ s and require a new request before any datagram (answered: the new MAC is used; unanswered: failure after the budget), and require a failed entry to be retried after its life time.',
     design='5 C12',
-    note='Only lower bounds on time (a give-up after 20 s of real time produces a ret event the spec rejects, subject to the reproduce-once rule). Learning from requests NOT addressed to the stack is neither required nor forbidden by the statement: the P-spec allows both. Connected sockets / TCP connections keep the link address their route resolved once (route-level caching): scenarios do not overwrite a mapping while such a socket is in use. The stale-timer race of the I-spec (NoEarlyFail, see Neigh.tla) needs an eviction or expiry inside the microsecond window between a timer firing and checkLinkRequest taking the lock; it is reported in the evidence, not driven on the real code.  The cache reads time.Now() directly, so the life-time scenarios cost 66-70 s of real time (overlapped with the rest of the check); the P-spec asserts must-use only up to 55 s and must-re-resolve only from 61 s after the mapping was learned or confirmed.')
+    note='Only lower bounds on time (a give-up after 20 s of real time produces a ret event the spec rejects, subject to the reproduce-once rule). Learning from requests NOT addressed to the stack is neither required nor forbidden by the statement: the P-spec allows both. Connected sockets / TCP connections keep the link address their route resolved once (route-level caching): scenarios do not overwrite a mapping while such a socket is in use. The stale-timer race of the I-spec (NoEarlyFail, see Neigh.tla) needs an eviction or expiry inside the microsecond window between a timer firing and checkLinkRequest taking the lock; it is reported in the evidence, not driven on the real code.  The cache reads time.Now() directly, so the life-time scenarios cost 66-70 s of real time (overlapped with the rest of the check); the P-spec asserts must-use only up to 55 s and must-re-resolve only from 61 s after the mapping was learned or confirmed. Link refusal: in a third of the fail scenarios and a quarter of the resolve scenarios the link endpoint refuses to transmit one or two of the requests (WritePacket returns an error); the spec lets a refused request count as an attempt or not, the resolution must end all the same.')
 
 SPEC = ['neigh']
 OWNMAC = '02:00:00:00:00:01'
